@@ -68,7 +68,7 @@ class Replayer:
         if race:
             cmd.append("-race")
         cmd.append("./" + pkgdir)
-        p = subprocess.run(cmd, cwd=REPO, env=GOENV, capture_output=True, text=True)
+        p = subprocess.run(cmd, cwd=REPO, env=GOENV, capture_output=True, text=True, errors="replace")
         self.build_log[key] = p.stdout + p.stderr
         if p.returncode != 0:
             raise RuntimeError("native build of %s failed:\n%s" % (pkgdir, p.stdout + p.stderr))
@@ -85,7 +85,7 @@ class Replayer:
             env.update(extra_env)
         try:
             p = subprocess.run([b, "-test.run", "^TestVerifReplay$", "-test.count=1", "-test.timeout", "%ds" % timeout],
-                               cwd=(os.path.join(REPO, pkgdir) if os.path.isdir(os.path.join(REPO, pkgdir)) else REPO), env=env, capture_output=True, text=True, timeout=timeout + 30)
+                               cwd=(os.path.join(REPO, pkgdir) if os.path.isdir(os.path.join(REPO, pkgdir)) else REPO), env=env, capture_output=True, text=True, errors="replace", timeout=timeout + 30)
             raw = p.stdout + p.stderr
         except subprocess.TimeoutExpired as e:
             return {"end": "timeout", "label": "", "observed": [], "raw": str(e)}
